@@ -598,26 +598,28 @@ class Neo4jPropertyGraph(ABCPropertyGraph):
         assert other_graph is not None
         assert other_graph.graph_exists()
         if merge_properties is not None:
-            # convert properties to Neo4j format
-            l = list()
-            for k, v in merge_properties.items():
-                l.append(str(k) + ":'" + str(v) + "'")
-            merge_properties_as_string = "{" + ",".join(l) + "}"
-            query = f"match (n:GraphNode {{GraphID: $graphId, NodeID: $nodeId}}), " \
-                    f"(m:GraphNode {{GraphID: $graphId1, NodeID: $nodeId}}) " \
-                    f"with head(collect([n, m])) as nodes " \
-                    f"call apoc.refactor.mergeNodes(nodes, {{properties: {merge_properties_as_string}, " \
-                    f"mergeRels: true}}) yield node return node"
+            # the per-property policy map travels as a map parameter, never as statement text; a key written
+            # with backticks for a literal map ("`addr.*`") is the bare string in a parameter map
+            merge_policy = {str(k).strip('`'): str(v) for k, v in merge_properties.items()}
+            query = "match (n:GraphNode {GraphID: $graphId, NodeID: $nodeId}), " \
+                    "(m:GraphNode {GraphID: $graphId1, NodeID: $nodeId}) " \
+                    "with head(collect([n, m])) as nodes " \
+                    "call apoc.refactor.mergeNodes(nodes, {properties: $mergePolicy, " \
+                    "mergeRels: true}) yield node return node"
+            with self.driver.session() as session:
+                session.run(query, graphId=self.graph_id,
+                            graphId1=other_graph.graph_id,
+                            nodeId=node_id, mergePolicy=merge_policy).single()
         else:
             query = "match (n:GraphNode {GraphID: $graphId, NodeID: $nodeId}), " \
                     "(m:GraphNode {GraphID: $graphId1, NodeID: $nodeId}) " \
                     "with head(collect([n, m])) as nodes " \
                     "call apoc.refactor.mergeNodes(nodes, {properties: 'discard', mergeRels: true}) " \
                     "yield node return node"
-        with self.driver.session() as session:
-            session.run(query, graphId=self.graph_id,
-                        graphId1=other_graph.graph_id,
-                        nodeId=node_id).single()
+            with self.driver.session() as session:
+                session.run(query, graphId=self.graph_id,
+                            graphId1=other_graph.graph_id,
+                            nodeId=node_id).single()
 
     def get_stitch_nodes(self) -> List[str]:
         query = f"MATCH (n:GraphNode {{GraphID: $graphId, StitchNode: 'true'}}) RETURN collect(n.NodeID) as nodeids"
